@@ -396,6 +396,22 @@ func HarnessC18Step() {
 			}
 		}
 		want = rArr(items)
+	case "ZRANGEREV":
+		// ZRANGE ... REV over the whole set (for partial windows the example store's index semantics is a documented deviation)
+		need(tZSet)
+		ws := vsymChoice("withscores", 2) == 1
+		args = [][]byte{B("ZRANGE"), B(k1), B("0"), B("-1"), B("REV")}
+		if ws {
+			args = append(args, B("WITHSCORES"))
+		}
+		var items []string
+		for i := len(k.zm) - 1; i >= 0; i-- {
+			items = append(items, k.zm[i])
+			if ws {
+				items = append(items, fmtScore(k.zs[i]))
+			}
+		}
+		want = rArr(items)
 	case "ZRANGEBYSCORE":
 		need(tZSet)
 		bounds := []string{"0", "1", "2", "3", "(1", "(2", "-inf", "+inf", "1.5"}
